@@ -120,6 +120,18 @@ CHECKS.update(
     }
 )
 
+CHECKS.update(
+    {
+        "C16": (
+            "Hypothesis-generated leveraged/short backtests with a spy algo; independent mark-to-market reference decides the flag date; invariants over the recorded history",
+            "Generated leveraged and short portfolios on jumpy price paths (flat, nested with leveraged children, fixed-income roots as negative class); an independent mark-to-market from the "
+            "recorded positions decides when value first goes below zero; flag, liquidation at that date's prices, zero positions, constant value/cash and the spy algo's call log are checked.",
+            "Borderline cases (|value| < 1e-6 x capital at some date) are discarded, so the strictness of '< 0' at exactly zero is not decided.",
+            "5/C16",
+        ),
+    }
+)
+
 NOT_YET = {}
 
 ALL = ["C%02d" % i for i in range(1, 21)]
